@@ -67,6 +67,7 @@ type opT struct {
 	Keys  []uint32 `json:"keys"`
 	Auth  int      `json:"auth"`
 	Bad   bool     `json:"bad"`
+	Auto  bool     `json:"auto"` // open_writer: AutoIndex (cesium generates the index series)
 	Kss   [][]uint32 `json:"kss"`
 	// open_streamer: open from the very same key slice (same backing array) as streamer
 	// Share was opened from — a caller re-using one []ChannelKey for several streamers
@@ -89,6 +90,9 @@ type item struct {
 	W    int      `json:"w"`
 	Seq  int      `json:"seq"`
 	Keys []uint32 `json:"keys"`
+	// Ts is the timestamp of an index series that cesium generated itself (auto-index
+	// writer); 0 if the frame carries none. Such a series does not identify its write.
+	Ts int64 `json:"ts,omitempty"`
 }
 
 type streamRes struct {
@@ -115,6 +119,8 @@ type wstate struct {
 	closed bool
 	chans  map[uint32]bool
 	// background goroutine (bg_writes ... join): while active, the driver leaves w alone
+	auto     bool
+	persist  bool
 	bgActive bool
 	bgDone   chan struct{}
 	bgErr    string
@@ -136,6 +142,9 @@ type sstate struct {
 	keys     []cesium.ChannelKey
 	keysCopy []cesium.ChannelKey
 	root     int
+	// the frames exactly as received (not copied), parallel to items: re-read at the end
+	// to catch a frame that changes after it was delivered
+	raw []cesium.Frame
 	paused    bool
 	closeReq  bool
 	outClosed bool
@@ -156,6 +165,7 @@ type caseState struct {
 	order    []int
 	tsN      int64
 	tsTag    map[int64][2]int
+	autoTs   map[[2]int]int64 // (writer, seq) -> auto-generated index timestamp it was relayed with
 	anomaly  string
 	syncs    int
 }
@@ -277,7 +287,11 @@ func (cs *caseState) consume(s *sstate) {
 				t, ok := cs.tsTag[v]
 				cs.mu.Unlock()
 				if !ok {
-					mixed = true
+					// generated by cesium for an auto-index writer: says nothing about which
+					// write it belongs to; checked at the end against the other streamers
+					it.Ts = v
+					it.Keys = append(it.Keys, uint32(k))
+					continue
 				}
 				w, q = t[0], t[1]
 			} else {
@@ -316,9 +330,111 @@ func (cs *caseState) consume(s *sstate) {
 				it = item{W: 0, Seq: 0, Keys: []uint32{}}
 			}
 			s.items = append(s.items, it)
+			s.raw = append(s.raw, res.Frame)
 		}
 		cs.cond.Broadcast()
 		cs.mu.Unlock()
+	}
+}
+
+// reDecode reads a received frame again: (keys, tag of the data series, auto timestamp).
+func (cs *caseState) reDecode(fr cesium.Frame) (it item) {
+	it = item{W: -1, Seq: -1}
+	for k, ser := range fr.Entries() {
+		if ser.Len() != 1 {
+			continue
+		}
+		v := telem.ValueAt[int64](ser, 0)
+		it.Keys = append(it.Keys, uint32(k))
+		if cs.kinds[uint32(k)] == "i" {
+			if t, ok := cs.tsTag[v]; ok {
+				it.W, it.Seq = t[0], t[1]
+			} else {
+				it.Ts = v
+			}
+			continue
+		}
+		it.W, it.Seq = int(v/tagMul), int(v%tagMul)
+	}
+	return it
+}
+
+// verifyFrames (cs.mu held, driver idle) checks the CONTENT of what the streamers received
+// beyond the tags: (1) every received frame still reads as it did when it was received;
+// (2) an auto-generated index series of one write is the same for every streamer, no
+// two writes share one, and a writer's timestamps increase with its writes; (3) a frame
+// that carries only such an index series is attributed to its write through them.
+func who(id int) string {
+	if id < 0 {
+		return "the harness's all-channel streamer"
+	}
+	return fmt.Sprintf("streamer %d", id)
+}
+
+func (cs *caseState) verifyFrames(quiescent bool) {
+	note := func(f string, a ...any) {
+		if cs.anomaly == "" {
+			cs.anomaly = fmt.Sprintf(f, a...)
+		}
+	}
+	type tag [2]int
+	tsOf := map[tag]int64{}
+	tagOf := map[int64]tag{}
+	for _, id := range cs.order {
+		s := cs.strs[id]
+		for j, it := range s.items {
+			if j < len(s.raw) {
+				now := cs.reDecode(s.raw[j])
+				was := it
+				if was.W == 0 && was.Seq == 0 && len(was.Keys) == 0 {
+					continue
+				}
+				same := now.Ts == was.Ts && len(now.Keys) == len(was.Keys) && (was.W < 0 || (now.W == was.W && now.Seq == was.Seq))
+				if !same {
+					note("a frame changed after %s had received it: it was write (%d,%d) keys %v index timestamp %d, now reads write (%d,%d) keys %v index timestamp %d",
+						who(s.id), was.W, was.Seq, was.Keys, was.Ts, now.W, now.Seq, now.Keys, now.Ts)
+				}
+			}
+			if it.Ts == 0 || it.W < 0 {
+				continue
+			}
+			tg := tag{it.W, it.Seq}
+			if old, ok := tsOf[tg]; ok && old != it.Ts {
+				note("write (%d,%d) was delivered with index timestamp %d to one streamer and %d to another (streamer %d)", it.W, it.Seq, old, it.Ts, s.id)
+			}
+			if other, ok := tagOf[it.Ts]; ok && other != tg {
+				note("the same auto-generated index timestamp %d was delivered for two different writes (%d,%d) and (%d,%d): received frames are not the written ones", it.Ts, other[0], other[1], it.W, it.Seq)
+			}
+			tsOf[tg], tagOf[it.Ts] = it.Ts, tg
+		}
+	}
+	for a, ta := range tsOf {
+		for b, tb := range tsOf {
+			if a[0] == b[0] && a[1] < b[1] && ta >= tb {
+				note("writer %d: write %d carries index timestamp %d, its later write %d carries %d", a[0], a[1], ta, b[1], tb)
+			}
+		}
+	}
+	for _, id := range cs.order {
+		s := cs.strs[id]
+		for j := range s.items {
+			it := &s.items[j]
+			if it.W >= 0 || it.Ts == 0 {
+				continue
+			}
+			if tg, ok := tagOf[it.Ts]; ok {
+				it.W, it.Seq = tg[0], tg[1]
+			} else {
+				if quiescent {
+					note("streamer %d received an index series with timestamp %d that belongs to no frame any streamer received whole", s.id, it.Ts)
+				}
+				it.W, it.Seq = 0, 0 // unattributable: shows up as a correspondence mismatch
+			}
+		}
+	}
+	cs.autoTs = map[[2]int]int64{}
+	for k, v := range tsOf {
+		cs.autoTs[[2]int{k[0], k[1]}] = v
 	}
 }
 
@@ -484,12 +600,18 @@ func runCase(c tcase) (res result) {
 	// hence to have finished with every earlier frame) even when no scripted streamer is
 	// connected and ready.
 	{
-		st, err := db.NewStreamer(ctx, cesium.StreamerConfig{Channels: toKeys(nil, 0)})
+		// It also subscribes to every channel of the case: it sees each relayed frame whole,
+		// which ties an auto-generated index series to the write (tag in the data series).
+		var all []uint32
+		for _, d := range c.Cfg.Chans {
+			all = append(all, d.K)
+		}
+		st, err := db.NewStreamer(ctx, cesium.StreamerConfig{Channels: toKeys(all, 0)})
 		if err != nil {
 			panic(err)
 		}
 		in := confluence.NewStream[cesium.StreamerRequest](1)
-		out := confluence.NewStream[cesium.StreamerResponse](1)
+		out := confluence.NewStream[cesium.StreamerResponse](16)
 		st.InFrom(in)
 		st.OutTo(out)
 		sctx, cancel := signal.Isolated()
@@ -573,11 +695,17 @@ func runCase(c tcase) (res result) {
 				for _, a := range o.Auths {
 					cfg.Authorities = append(cfg.Authorities, xcontrol.Authority(a))
 				}
+				if o.Auto {
+					// cesium opens the index of the data channels implicitly, stamps every frame
+					// that omits the index series, and starts at telem.Now()
+					cfg.AutoIndex = new(true)
+					cfg.Start = 0
+				}
 				w, err := db.OpenWriter(ctx, cfg)
 				if err != nil {
 					return opRes{E: errClass(err)}
 				}
-				ws := &wstate{w: w, chans: map[uint32]bool{}}
+				ws := &wstate{w: w, chans: map[uint32]bool{}, auto: o.Auto, persist: o.Mode != "so"}
 				for _, k := range o.Chans {
 					ws.chans[k] = true
 				}
@@ -837,6 +965,7 @@ func runCase(c tcase) (res result) {
 		}
 	}
 	cs.mu.Lock()
+	cs.verifyFrames(!hung && !cs.dbClosed)
 	for _, id := range cs.order {
 		s := cs.strs[id]
 		if id < 0 {
@@ -893,6 +1022,36 @@ func runCase(c tcase) (res result) {
 		if hung {
 			return res
 		}
+	}
+	// what was streamed is what was persisted: the auto-generated index timestamps relayed for
+	// the writes of persisting auto-index writers are samples of the index channel
+	if !cs.dbClosed && len(cs.autoTs) > 0 {
+		var idxKeys []cesium.ChannelKey
+		for _, d := range c.Cfg.Chans {
+			if d.Kind == "i" {
+				idxKeys = append(idxKeys, cesium.ChannelKey(d.K))
+			}
+		}
+		res.Tear = append(res.Tear, run("teardown read of the index channel", func() opRes {
+			fr, err := db.Read(ctx, telem.TimeRangeMax, idxKeys...)
+			if err != nil {
+				return opRes{E: errClass(err)}
+			}
+			have := map[int64]bool{}
+			for _, ser := range fr.Entries() {
+				for j := 0; j < int(ser.Len()); j++ {
+					have[telem.ValueAt[int64](ser, j)] = true
+				}
+			}
+			for tg, ts := range cs.autoTs {
+				ws := cs.writers[tg[0]]
+				if ws != nil && ws.auto && ws.persist && !have[ts] && res.Anomaly == nil {
+					a := fmt.Sprintf("write (%d,%d) of a persisting auto-index writer was streamed with index timestamp %d, which is not a sample of the persisted index channel", tg[0], tg[1], ts)
+					res.Anomaly = &a
+				}
+			}
+			return opRes{}
+		}))
 	}
 	res.Tear = append(res.Tear, run("teardown close of probe writer", func() opRes { return opRes{E: errClass(cs.probe.Close())} }))
 	if !cs.dbClosed && !hung {
